@@ -722,9 +722,21 @@ def translate_unit(name, unit, repo, outdir, builddir):
         if rd['name'] not in cscopes:
             raise Unsupported('reference to non-local variable %s: add consts={name: qualified C++ spelling} to the unit' % rd['name'])
         cprobe[nm] = dict(qual=cscopes[rd['name']], type=rd.get('type', {}).get('qualType', ''))
+    # constants of floating type: dyadic values with at most 20 fractional bits are probed exactly (value * 2^20 must be integral)
+    dprobe = {nm: cprobe.pop(nm) for nm in list(cprobe) if cprobe[nm]['type'].replace('const ', '').strip() in ('double', 'float')}
     allp = dict(tr.enums); allp.update(cprobe)
+    for nm, d in dprobe.items():
+        allp[nm] = dict(qual='((%s) * 1048576.0 == static_cast<double>(static_cast<long long>((%s) * 1048576.0)) && (%s) < 0.9 && (%s) > -0.9 ? (%s) * 1048576.0 : -999999.0)'
+                        % ((d['qual'],) * 5))
     vals = probe_enum_values(repo, builddir, src, allp)
     cvals = {nm: vals.pop(nm) for nm in list(cprobe)}
+    dvals = {}
+    for nm in dprobe:
+        v = vals.pop(nm)
+        if v == -999999:
+            raise Unsupported('floating constant %s is not a dyadic value with <= 20 fractional bits in (-0.9, 0.9)' % nm)
+        fr = Fraction(v, 1048576)
+        dvals[nm] = '(flit %d (%d) %d)' % (struct.unpack('<Q', struct.pack('<d', float(fr)))[0], fr.numerator, fr.denominator)
     hdr = ['(* GENERATED by translator/cxx2gallina.py — do not edit, not committed.',
            '   unit %s : %s in %s bytes %s..%s sha256 %s *)' % (name, unit['qual'], path, b, e, sha)]
     late = unit.get('imports_last')     # prelude names (eqb, leb, ltb ...) must win over Coq.Bool's: import the prelude after the stdlib
@@ -745,6 +757,8 @@ def translate_unit(name, unit, repo, outdir, builddir):
             hdr.append('Definition %s : bool := %s.' % (nm, 'true' if cvals[nm] else 'false'))
         else:
             hdr.append('Definition %s : Z := (%d)%%Z.' % (nm, cvals[nm]))
+    for nm in sorted(dvals):
+        hdr.append('Definition %s := %s.' % (nm, dvals[nm]))
     for al, target in unit.get('aliases', {}).items():
         hdr.append('Notation %s := %s (only parsing).' % (al, target))
     virt = unit.get('virtuals', {})
